@@ -186,3 +186,167 @@ def show_vec(v):
             out.append(f"{b}^{j - i + 1}@{i}")
             i = j + 1
     return ' '.join(out) or '0'
+
+
+# ------------------------------------------------------------------------------------------------------------
+# case-split evaluation: predicates are decided on concrete bits
+# ------------------------------------------------------------------------------------------------------------
+class NeedBits(Exception):
+    """a predicate depends on input bits that are still symbolic: the caller enumerates them"""
+    def __init__(self, bits_):
+        self.bits = set(bits_)
+
+def _fix(vec, fixed):
+    return [fixed.get(b, b) if isinstance(b, tuple) else b for b in vec]
+
+def _sym_bits(vec):
+    return {b for b in vec if isinstance(b, tuple)}
+
+def _value(vec):
+    return sum(b << i for i, b in enumerate(vec))
+
+def evalt(t, widths, fixed, env=None):
+    """term -> bit vector, ('tuple', [values]) or bool, with the input bits in `fixed` ({(sym,k): 0|1}) replaced by their values;
+    every branch predicate (any comparison, and / or / not, truth of an integer) must come out concrete, else NeedBits"""
+    env = env or {}
+    if t in env:
+        return _fix(env[t], fixed)
+    k = t[0]
+    if k == 'const' and isinstance(t[1], bool):
+        return t[1]
+    if k == 'param':
+        if t[1] not in widths:
+            raise Top(f"input {t[1]} has no declared width")
+        return _fix([(t[1], i) for i in range(widths[t[1]])], fixed)
+    if k == 'tuple':
+        return ('tuple', [evalt(x, widths, fixed, env) for x in t[1]])
+    if k == 'ite':
+        return evalt(t[2] if truthv(t[1], widths, fixed, env) else t[3], widths, fixed, env)
+    if k in ('cmp', 'bool') or (k == 'unop' and t[1] == 'not'):
+        return truthv(t, widths, fixed, env)
+    if k == 'binop':
+        op = t[1]
+        a = evalt(t[2], widths, fixed, env); b = evalt(t[3], widths, fixed, env)
+        if isinstance(a, bool): a = [int(a)]
+        if isinstance(b, bool): b = [int(b)]
+        if not isinstance(a, list) or not isinstance(b, list):
+            raise Top(f"operator {op} on a tuple")
+        ca, cb = not _sym_bits(a), not _sym_bits(b)
+        if ca and cb:
+            x, y = _value(a), _value(b)
+            try:
+                r = sym.BINFN[op](x, y)
+            except Exception as e:
+                raise Top(f"{x} {op} {y}: {e}")
+            if not isinstance(r, int) or r < 0:
+                raise Top(f"{x} {op} {y} = {r!r}")
+            return const_bits(r)
+        if op in ('<<', '>>'):
+            if not cb:
+                raise NeedBits(_sym_bits(b))
+            return shl(a, _value(b)) if op == '<<' else shr(a, _value(b))
+        if op == '&': return band(a, b)
+        if op == '|': return bor(a, b)
+        if op == '^': return bxor(a, b)
+        if op == '+':
+            for i in range(min(len(a), len(b))):
+                if a[i] != 0 and b[i] != 0:
+                    raise Overlap('addition of overlapping bit ranges')
+            return bor(a, b)
+        if cb and _value(b) > 0 and _value(b) & (_value(b) - 1) == 0:
+            sh = _value(b).bit_length() - 1
+            if op == '%': return trim(a[:sh])
+            if op == '*': return shl(a, sh)
+            if op == '//': return shr(a, sh)
+        if ca and op == '*' and _value(a) > 0 and _value(a) & (_value(a) - 1) == 0:
+            return shl(b, _value(a).bit_length() - 1)
+        raise Top(f"operator {op}")
+    if k == 'const':
+        if not isinstance(t[1], int):
+            raise Top(f"non-integer constant {t[1]!r}")
+        return const_bits(t[1])
+    raise Top(f"term kind {k}: {sym.show(t)[:80]}")
+
+def truthv(c, widths, fixed, env=None):
+    k = c[0]
+    if k == 'const':
+        return bool(c[1])
+    if k == 'unop' and c[1] == 'not':
+        return not truthv(c[2], widths, fixed, env)
+    if k == 'bool':
+        if c[1] == 'and':
+            for x in c[2]:
+                if not truthv(x, widths, fixed, env):
+                    return False
+            return True
+        for x in c[2]:
+            if truthv(x, widths, fixed, env):
+                return True
+        return False
+    if k == 'cmp' and c[1] in ('==', '!=', '<', '<=', '>', '>='):
+        a = evalt(c[2], widths, fixed, env); b = evalt(c[3], widths, fixed, env)
+        if isinstance(a, bool): a = [int(a)]
+        if isinstance(b, bool): b = [int(b)]
+        if not isinstance(a, list) or not isinstance(b, list):
+            raise Top('comparison of tuples')
+        need = _sym_bits(a) | _sym_bits(b)
+        if need:
+            # bounds: unknown bits all 0 / all 1
+            lo = lambda v: sum((1 if x == 1 else 0) << i for i, x in enumerate(v))
+            hi = lambda v: sum((0 if x == 0 else 1) << i for i, x in enumerate(v))
+            op = c[1]
+            la, ha, lb, hb = lo(a), hi(a), lo(b), hi(b)
+            if op == '<' and ha < lb: return True
+            if op == '<' and la >= hb: return False
+            if op == '<=' and ha <= lb: return True
+            if op == '<=' and la > hb: return False
+            if op == '>' and la > hb: return True
+            if op == '>' and ha <= lb: return False
+            if op == '>=' and la >= hb: return True
+            if op == '>=' and ha < lb: return False
+            if op in ('==', '!=') and (ha < lb or la > hb or any(isinstance(x, int) and isinstance(y, int) and x != y for x, y in zip(a + [0] * len(b), b + [0] * len(a)))):
+                return op == '!='
+            # undecided: ask for the most significant unknown bit only (an order comparison is decided from the top)
+            top = None
+            for v in (a, b):
+                for i in range(len(v) - 1, -1, -1):
+                    if isinstance(v[i], tuple):
+                        if top is None or i > top[0]:
+                            top = (i, v[i])
+                        break
+            raise NeedBits({top[1]} if op not in ('==', '!=') else need)
+        return bool(sym.CMPFN[c[1]](_value(a), _value(b)))
+    if k == 'cmp':
+        raise Top('predicate ' + sym.show(c)[:80])
+    v = evalt(c, widths, fixed, env)
+    if isinstance(v, bool):
+        return v
+    if isinstance(v, list):
+        if _sym_bits(v):
+            if any(b == 1 for b in v):
+                return True
+            raise NeedBits(_sym_bits(v))
+        return _value(v) != 0
+    raise Top('truth of ' + sym.show(c)[:60])
+
+def cases(term, widths, env=None, presplit=(), max_bits=18):
+    """evaluate `term` under every assignment of the input bits its predicates consult (plus `presplit`).
+    -> list of (fixed, value); the union of the cases is the whole input space, the other bits stay symbolic"""
+    import itertools
+    out = []
+    pre = sorted(set(presplit))
+    work = [dict(zip(pre, vals)) for vals in itertools.product((0, 1), repeat=len(pre))]
+    while work:
+        fixed = work.pop()
+        try:
+            out.append((fixed, evalt(term, widths, fixed, env)))
+        except NeedBits as nb:
+            more = sorted(nb.bits - set(fixed))
+            if not more:
+                raise Top('predicate stays symbolic')
+            if len(fixed) + len(more) > max_bits:
+                raise Top(f"predicates consult more than {max_bits} input bits")
+            for vals in itertools.product((0, 1), repeat=len(more)):
+                f2 = dict(fixed); f2.update(zip(more, vals))
+                work.append(f2)
+    return out
